@@ -89,7 +89,10 @@ class TrioStreamSocketAdapter(AsyncStreamTransport):
         if not supports_async_socket_sendmsg(socket):
             return await super().send_all_from_iterable(iterable_of_data)
 
-        buffers: deque[memoryview] = deque(map(memoryview, iterable_of_data))  # type: ignore[arg-type]
+        # Empty buffers are dropped: sendmsg() reports 0 bytes for them, so they would never be removed from the queue.
+        buffers: deque[memoryview] = deque(
+            buffer for buffer in map(memoryview, iterable_of_data) if buffer.nbytes > 0  # type: ignore[arg-type]
+        )
         del iterable_of_data
 
         if not buffers:
